@@ -16,6 +16,7 @@ CONSTANTS
   BTok(_, _),    \* data token of a "d" block
   BPtr(_, _, _), \* BPtr(img, b, i): pointer reading of 8-byte entry i of block b (record, see ZeroE)
   BRc(_, _, _),  \* BRc(img, b, i): refcount reading of entry i of block b
+  BPtrDom(_, _), \* indices of block b whose 8-byte entry is non-zero
   BRcDom(_, _),  \* indices of block b whose refcount reading is non-zero
   BHdr(_)        \* header record of block 0 (only meaningful if BKind(img,0) = "h")
 
@@ -103,18 +104,25 @@ CompClusters(g, e) ==
 ---------------------------------------------------------------------------
 (* References: the set of <<tag, index, host cluster>> *)
 
+\* indices of the non-zero entries of a table of n clusters starting at
+\* cluster c0 (tables are sparse: iterate over what is there)
+TabNZ(img, g, c0, n) ==
+  UNION { { k * g.epb + x : x \in BPtrDom(img, c0 * g.bpc + k) } : k \in 0 .. n * g.bpc - 1 }
+
 ActiveL1(img)    == 0 .. L1N(img) - 1
-L2Tables(img, g) == { i \in ActiveL1(img) : L1E(img, g, i).c # 0 }
+L1NZ(img, g)     == { i \in TabNZ(img, g, L1C(img), TabClusters(g, L1N(img))) : i < L1N(img) }
+RtNZ(img, g)     == TabNZ(img, g, RTC(img), RTN(img))
+L2Tables(img, g) == { i \in L1NZ(img, g) : L1E(img, g, i).c # 0 }
+\* guest clusters with a non-zero L2 entry
 MappedGC(img, g) ==
-  UNION { { i * g.l2n + j : j \in 0 .. g.l2n - 1 } : i \in L2Tables(img, g) }
+  UNION { { i * g.l2n + j : j \in TabNZ(img, g, L1E(img, g, i).c, 1) } : i \in L2Tables(img, g) }
 
 RefSet(img, g) ==
   LET h == BHdr(img) IN
   {<<0, 0, 0>>}
   \cup { <<1, k, h.l1c + k>> : k \in 0 .. TabClusters(g, h.l1n) - 1 }
   \cup { <<2, k, h.rtc + k>> : k \in 0 .. h.rtn - 1 }
-  \cup { <<3, i, RtE(img, g, i).c>> :
-           i \in { i \in 0 .. RtEntries(img, g) - 1 : RtE(img, g, i).c # 0 } }
+  \cup { <<3, i, RtE(img, g, i).c>> : i \in { i \in RtNZ(img, g) : RtE(img, g, i).c # 0 } }
   \cup { <<4, i, L1E(img, g, i).c>> : i \in L2Tables(img, g) }
   \cup { <<5, gc, L2E(img, g, gc).c>> :
            gc \in { x \in MappedGC(img, g) :
@@ -130,7 +138,7 @@ RcNonZero(img, g) ==
   UNION { UNION { { i * g.rbn + k * g.rpb + x :
                       x \in BRcDom(img, RtE(img, g, i).c * g.bpc + k) } :
                   k \in 0 .. g.bpc - 1 } :
-          i \in { i \in 0 .. RtEntries(img, g) - 1 : RtE(img, g, i).c # 0 } }
+          i \in { i \in RtNZ(img, g) : RtE(img, g, i).c # 0 } }
 
 ---------------------------------------------------------------------------
 (* Structural validity *)
@@ -141,10 +149,10 @@ TablesOK(img, g) ==
   /\ \A k \in 0 .. TabClusters(g, L1N(img)) - 1 :
         ClusterTableLike(img, g, L1C(img) + k)
   /\ \A k \in 0 .. RTN(img) - 1 : ClusterTableLike(img, g, RTC(img) + k)
-  /\ \A i \in ActiveL1(img) :
+  /\ \A i \in L1NZ(img, g) :
         /\ L1EntryWF(L1E(img, g, i))
         /\ L1E(img, g, i).c # 0 => ClusterTableLike(img, g, L1E(img, g, i).c)
-  /\ \A i \in 0 .. RtEntries(img, g) - 1 :
+  /\ \A i \in RtNZ(img, g) :
         /\ RtEntryWF(RtE(img, g, i))
         /\ RtE(img, g, i).c # 0 => ClusterTableLike(img, g, RtE(img, g, i).c)
   /\ \A gc \in MappedGC(img, g) : L2EntryWF(L2E(img, g, gc))
